@@ -342,6 +342,9 @@ func genLeaf(r *Rand, v reflect.Value, f LField, mode int) {
 		v.Set(reflect.ValueOf(ip))
 	case "netip.AddrPort":
 		ap := netip.AddrPortFrom(netip.AddrFrom4([4]byte{r.Byte(), r.Byte(), r.Byte(), r.Byte()}), uint16(genU32(r)))
+		if r.Intn(5) == 0 { // the addresses code tends to special-case, with any port
+			ap = netip.AddrPortFrom(netip.AddrFrom4([][4]byte{{0, 0, 0, 0}, {255, 255, 255, 255}, {0, 0, 0, 1}, {127, 0, 0, 1}}[r.Intn(4)]), uint16([]int{0, 1, 256, 60000, 60001, 65535}[r.Intn(6)]))
+		}
 		if edge {
 			switch r.Intn(4) {
 			case 0:
